@@ -5,6 +5,14 @@ import Mathlib.Tactic.Linarith
 import Mathlib.Tactic.Ring
 import Mathlib.Tactic.FieldSimp
 import Mathlib.Tactic.Positivity
+/-! Helper lemmas for `MD/Props/C04_HES.lean`: the homogeneous expectile score `hes` at `K = ℝ`.
+
+Structure: on its domain `hesDom h y z`,
+`hes h α y z = .ok (hesAsym α y z * (2 * hesBreg h y z))` (`hes_eq_breg`), where
+`hesBreg h y z = φ y - φ z - φ' z * (y - z)` is the Bregman divergence of the convex generator
+`φ = hesPhi h` with derivative `φ' = hesPhi' h`, and `hesAsym α y z ∈ {1, 2(1-α), 2α}` is positive.
+Everything (non-negativity, strict positivity, order sensitivity) follows from the strict gradient
+inequality `hesPhi_grad_lt`, which is Bernoulli's inequality (`h ∉ {0,1}`) or `log x < x - 1`. -/
 set_option linter.unusedSectionVars false
 namespace MD
 open Real
@@ -147,21 +155,21 @@ theorem sgn_mul_abs (x : ℝ) : sgn x * |x| = x := by
   · rw [sgn_of_pos hx, abs_of_pos hx]; ring
 
 /-- the convex generator `φ_h` of the Bregman representation -/
-noncomputable def phi (h x : ℝ) : ℝ :=
+noncomputable def hesPhi (h x : ℝ) : ℝ :=
   if 1 < h then |x| ^ h / (h * (h - 1))
   else if h = 1 then x * Real.log x - x
   else if h = 0 then - Real.log x
   else x ^ h / (h * (h - 1))
 
 /-- its derivative `φ_h'` -/
-noncomputable def phi' (h x : ℝ) : ℝ :=
+noncomputable def hesPhi' (h x : ℝ) : ℝ :=
   if 1 < h then sgn x / (h - 1) * |x| ^ (h - 1)
   else if h = 1 then Real.log x
   else if h = 0 then - (1 / x)
   else 1 / (h - 1) * x ^ (h - 1)
 
 /-- Bregman divergence of `φ_h` -/
-noncomputable def breg (h y z : ℝ) : ℝ := phi h y - phi h z - phi' h z * (y - z)
+noncomputable def hesBreg (h y z : ℝ) : ℝ := hesPhi h y - hesPhi h z - hesPhi' h z * (y - z)
 
 theorem xlogy_div {y z : ℝ} (hy : 0 ≤ y) (hz : 0 < z) :
     xlogy y (y / z) = y * Real.log y - y * Real.log z := by
@@ -172,9 +180,9 @@ theorem xlogy_div {y z : ℝ} (hy : 0 ≤ y) (hz : 0 < z) :
   · have : 0 < y := lt_of_le_of_ne hy (Ne.symm h0)
     rw [Real.log_div this.ne' hz.ne']; ring
 
-theorem hesBase_eq_breg {h y z : ℝ} (hd : hesDom h y z) : hesBase h y z = 2 * breg h y z := by
+theorem hesBase_eq_breg {h y z : ℝ} (hd : hesDom h y z) : hesBase h y z = 2 * hesBreg h y z := by
   unfold hesDom at hd
-  unfold hesBase breg phi phi'
+  unfold hesBase hesBreg hesPhi hesPhi'
   by_cases h2 : h = 2
   · subst h2
     have e : (2:ℝ) - 1 = 1 := by norm_num
@@ -204,12 +212,12 @@ theorem hesBase_eq_breg {h y z : ℝ} (hd : hesDom h y z) : hesBase h y z = 2 * 
   rw [if_neg e0, if_neg e0, if_neg e0, if_neg e0]
   ring
 
-noncomputable def asym (α y z : ℝ) : ℝ := if α = 1 / 2 then 1 else 2 * |geInd z y - α|
+noncomputable def hesAsym (α y z : ℝ) : ℝ := if α = 1 / 2 then 1 else 2 * |geInd z y - α|
 
 theorem hes_eq_base {h α y z : ℝ} (hd : hesDom h y z) :
-    hes h α y z = .ok (asym α y z * hesBase h y z) := by
+    hes h α y z = .ok (hesAsym α y z * hesBase h y z) := by
   unfold hesDom at hd
-  unfold hes hesBase asym
+  unfold hes hesBase hesAsym
   simp only [eqK_iff, two_real, half_real, rpow_real, log_real, abs_real]
   split_ifs at hd ⊢ <;> simp_all <;> rfl
 
@@ -227,10 +235,10 @@ theorem hes_ok_dom {h α y z v : ℝ} (hv : hes h α y z = .ok v) : hesDom h y z
 
 /-! ### gradient inequality for `φ_h`, consequences for the Bregman divergence -/
 
-theorem phi_grad_lt {h y z : ℝ} (hd : hesDom h y z) (hne : y ≠ z) :
-    phi h z + phi' h z * (y - z) < phi h y := by
+theorem hesPhi_grad_lt {h y z : ℝ} (hd : hesDom h y z) (hne : y ≠ z) :
+    hesPhi h z + hesPhi' h z * (y - z) < hesPhi h y := by
   unfold hesDom at hd
-  unfold phi phi'
+  unfold hesPhi hesPhi'
   by_cases h1 : 1 < h
   · simp only [if_pos h1]
     have hc : 0 < h * (h - 1) := mul_pos (by linarith) (by linarith)
@@ -294,25 +302,25 @@ theorem phi_grad_lt {h y z : ℝ} (hd : hesDom h y z) (hne : y ≠ z) :
     rw [e]
     exact div_lt_div_of_pos_right key hc
 
-theorem breg_self (h y : ℝ) : breg h y y = 0 := by unfold breg; ring
+theorem hesBreg_self (h y : ℝ) : hesBreg h y y = 0 := by unfold hesBreg; ring
 
-theorem breg_pos {h y z : ℝ} (hd : hesDom h y z) (hne : y ≠ z) : 0 < breg h y z := by
-  have := phi_grad_lt hd hne
-  unfold breg; linarith
+theorem hesBreg_pos {h y z : ℝ} (hd : hesDom h y z) (hne : y ≠ z) : 0 < hesBreg h y z := by
+  have := hesPhi_grad_lt hd hne
+  unfold hesBreg; linarith
 
-theorem breg_nonneg {h y z : ℝ} (hd : hesDom h y z) : 0 ≤ breg h y z := by
+theorem hesBreg_nonneg {h y z : ℝ} (hd : hesDom h y z) : 0 ≤ hesBreg h y z := by
   by_cases hne : y = z
-  · subst hne; rw [breg_self]
-  · exact (breg_pos hd hne).le
+  · subst hne; rw [hesBreg_self]
+  · exact (hesBreg_pos hd hne).le
 
 /-- the gradient inequality `φ z + φ' z (y - z) ≤ φ y` on the domain -/
-theorem phi_grad {h y z : ℝ} (hd : hesDom h y z) : phi h z + phi' h z * (y - z) ≤ phi h y := by
-  have := breg_nonneg hd
-  unfold breg at this; linarith
+theorem hesPhi_grad {h y z : ℝ} (hd : hesDom h y z) : hesPhi h z + hesPhi' h z * (y - z) ≤ hesPhi h y := by
+  have := hesBreg_nonneg hd
+  unfold hesBreg at this; linarith
 
-theorem breg_three_point (h y z₁ z₂ : ℝ) :
-    breg h y z₂ - breg h y z₁ = breg h z₁ z₂ + (phi' h z₁ - phi' h z₂) * (y - z₁) := by
-  unfold breg; ring
+theorem hesBreg_three_point (h y z₁ z₂ : ℝ) :
+    hesBreg h y z₂ - hesBreg h y z₁ = hesBreg h z₁ z₂ + (hesPhi' h z₁ - hesPhi' h z₂) * (y - z₁) := by
+  unfold hesBreg; ring
 
 /-- a valid prediction is a valid observation -/
 theorem hesDom_pred {h y y' z₁ z₂ : ℝ} (h1 : hesDom h y z₁) (h2 : hesDom h y' z₂) :
@@ -320,55 +328,55 @@ theorem hesDom_pred {h y y' z₁ z₂ : ℝ} (h1 : hesDom h y z₁) (h2 : hesDom
   unfold hesDom at *
   split_ifs at * <;> first | trivial | exact ⟨h1.2.le, h2.2⟩ | exact ⟨h1.2, h2.2⟩
 
-theorem phi'_mono {h z₁ z₂ : ℝ} (h12 : hesDom h z₁ z₂) (h21 : hesDom h z₂ z₁) (hle : z₁ ≤ z₂) :
-    phi' h z₁ ≤ phi' h z₂ := by
+theorem hesPhi'_mono {h z₁ z₂ : ℝ} (h12 : hesDom h z₁ z₂) (h21 : hesDom h z₂ z₁) (hle : z₁ ≤ z₂) :
+    hesPhi' h z₁ ≤ hesPhi' h z₂ := by
   rcases eq_or_lt_of_le hle with he | hlt
   · rw [he]
-  · have a := breg_nonneg h12
-    have b := breg_nonneg h21
-    have e : breg h z₁ z₂ + breg h z₂ z₁ = (phi' h z₂ - phi' h z₁) * (z₂ - z₁) := by
-      unfold breg; ring
-    have hp : 0 ≤ (phi' h z₂ - phi' h z₁) * (z₂ - z₁) := by rw [← e]; linarith
+  · have a := hesBreg_nonneg h12
+    have b := hesBreg_nonneg h21
+    have e : hesBreg h z₁ z₂ + hesBreg h z₂ z₁ = (hesPhi' h z₂ - hesPhi' h z₁) * (z₂ - z₁) := by
+      unfold hesBreg; ring
+    have hp : 0 ≤ (hesPhi' h z₂ - hesPhi' h z₁) * (z₂ - z₁) := by rw [← e]; linarith
     have := nonneg_of_mul_nonneg_left hp (sub_pos.2 hlt)
     linarith
 
 /-- `z ↦ B(y, z)` grows as `z` moves away from `y`, by at least `B(z₁, z₂)` -/
-theorem breg_mono_add {h y z₁ z₂ : ℝ} (hd1 : hesDom h y z₁) (hd2 : hesDom h y z₂)
+theorem hesBreg_mono_add {h y z₁ z₂ : ℝ} (hd1 : hesDom h y z₁) (hd2 : hesDom h y z₂)
     (hside : (y ≤ z₁ ∧ z₁ ≤ z₂) ∨ (z₂ ≤ z₁ ∧ z₁ ≤ y)) :
-    breg h y z₁ + breg h z₁ z₂ ≤ breg h y z₂ := by
+    hesBreg h y z₁ + hesBreg h z₁ z₂ ≤ hesBreg h y z₂ := by
   have h12 := hesDom_pred hd1 hd2
   have h21 := hesDom_pred hd2 hd1
-  have tp := breg_three_point h y z₁ z₂
-  have : 0 ≤ (phi' h z₁ - phi' h z₂) * (y - z₁) := by
+  have tp := hesBreg_three_point h y z₁ z₂
+  have : 0 ≤ (hesPhi' h z₁ - hesPhi' h z₂) * (y - z₁) := by
     rcases hside with ⟨a, b⟩ | ⟨a, b⟩
-    · have := phi'_mono h12 h21 b
+    · have := hesPhi'_mono h12 h21 b
       exact mul_nonneg_of_nonpos_of_nonpos (by linarith) (by linarith)
-    · have := phi'_mono h21 h12 a
+    · have := hesPhi'_mono h21 h12 a
       exact mul_nonneg (by linarith) (by linarith)
   linarith
 
-theorem breg_mono {h y z₁ z₂ : ℝ} (hd1 : hesDom h y z₁) (hd2 : hesDom h y z₂)
-    (hside : (y ≤ z₁ ∧ z₁ ≤ z₂) ∨ (z₂ ≤ z₁ ∧ z₁ ≤ y)) : breg h y z₁ ≤ breg h y z₂ := by
-  have := breg_mono_add hd1 hd2 hside
-  have := breg_nonneg (hesDom_pred hd1 hd2)
+theorem hesBreg_mono {h y z₁ z₂ : ℝ} (hd1 : hesDom h y z₁) (hd2 : hesDom h y z₂)
+    (hside : (y ≤ z₁ ∧ z₁ ≤ z₂) ∨ (z₂ ≤ z₁ ∧ z₁ ≤ y)) : hesBreg h y z₁ ≤ hesBreg h y z₂ := by
+  have := hesBreg_mono_add hd1 hd2 hside
+  have := hesBreg_nonneg (hesDom_pred hd1 hd2)
   linarith
 
-theorem breg_strict_mono {h y z₁ z₂ : ℝ} (hd1 : hesDom h y z₁) (hd2 : hesDom h y z₂)
-    (hside : (y ≤ z₁ ∧ z₁ < z₂) ∨ (z₂ < z₁ ∧ z₁ ≤ y)) : breg h y z₁ < breg h y z₂ := by
-  have := breg_mono_add hd1 hd2 (by
+theorem hesBreg_strict_mono {h y z₁ z₂ : ℝ} (hd1 : hesDom h y z₁) (hd2 : hesDom h y z₂)
+    (hside : (y ≤ z₁ ∧ z₁ < z₂) ∨ (z₂ < z₁ ∧ z₁ ≤ y)) : hesBreg h y z₁ < hesBreg h y z₂ := by
+  have := hesBreg_mono_add hd1 hd2 (by
     rcases hside with ⟨a, b⟩ | ⟨a, b⟩
     · exact Or.inl ⟨a, b.le⟩
     · exact Or.inr ⟨a.le, b⟩)
-  have := breg_pos (hesDom_pred hd1 hd2) (by
+  have := hesBreg_pos (hesDom_pred hd1 hd2) (by
     rcases hside with ⟨_, b⟩ | ⟨a, _⟩
     · exact b.ne
     · exact a.ne')
   linarith
 
-/-! ### the asymmetry factor -/
+/-! ### the hesAsymmetry factor -/
 
-theorem asym_pos {α : ℝ} (hα : 0 < α ∧ α < 1) (y z : ℝ) : 0 < asym α y z := by
-  unfold asym geInd
+theorem hesAsym_pos {α : ℝ} (hα : 0 < α ∧ α < 1) (y z : ℝ) : 0 < hesAsym α y z := by
+  unfold hesAsym geInd
   split_ifs with h1 h2
   · exact one_pos
   · have : (0:ℝ) < |1 - α| := abs_pos.mpr (by linarith [hα.2])
@@ -376,15 +384,15 @@ theorem asym_pos {α : ℝ} (hα : 0 < α ∧ α < 1) (y z : ℝ) : 0 < asym α 
   · have : (0:ℝ) < |0 - α| := abs_pos.mpr (by linarith [hα.1])
     linarith
 
-theorem asym_eq_of_ge {α y z₁ z₂ : ℝ} (h1 : y ≤ z₁) (h2 : y ≤ z₂) : asym α y z₁ = asym α y z₂ := by
-  simp [asym, geInd, h1, h2]
+theorem hesAsym_eq_of_ge {α y z₁ z₂ : ℝ} (h1 : y ≤ z₁) (h2 : y ≤ z₂) : hesAsym α y z₁ = hesAsym α y z₂ := by
+  simp [hesAsym, geInd, h1, h2]
 
-theorem asym_eq_of_lt {α y z₁ z₂ : ℝ} (h1 : z₁ < y) (h2 : z₂ < y) : asym α y z₁ = asym α y z₂ := by
-  simp [asym, geInd, not_le.mpr h1, not_le.mpr h2]
+theorem hesAsym_eq_of_lt {α y z₁ z₂ : ℝ} (h1 : z₁ < y) (h2 : z₂ < y) : hesAsym α y z₁ = hesAsym α y z₂ := by
+  simp [hesAsym, geInd, not_le.mpr h1, not_le.mpr h2]
 
-/-- the full closed form: asymmetry factor × 2 × Bregman divergence -/
+/-- the full closed form: hesAsymmetry factor × 2 × Bregman divergence -/
 theorem hes_eq_breg {h α y z : ℝ} (hd : hesDom h y z) :
-    hes h α y z = .ok (asym α y z * (2 * breg h y z)) := by
+    hes h α y z = .ok (hesAsym α y z * (2 * hesBreg h y z)) := by
   rw [hes_eq_base hd, hesBase_eq_breg hd]
 
 end MD
